@@ -99,6 +99,16 @@ def main():
                                      if v['exit'] == 1)
         d = os.path.join(HERE, 'seeded', a.seed_id)
         os.makedirs(d, exist_ok=True)
+        try:
+            old = json.load(open(os.path.join(d, 'meta.json')))
+        except Exception:
+            old = None
+        if old is not None:
+            if old.get('first_verdict'):
+                meta['first_verdict'] = old['first_verdict']
+            elif not old.get('detected_by') and meta['detected_by']:
+                meta['first_verdict'] = ('missed when filed; caught after '
+                                         'the check was strengthened')
         shutil.copy(a.patch, os.path.join(d, 'patch.diff'))
         shutil.copy(a.demo, os.path.join(d, 'demo.py'))
         with open(os.path.join(d, 'meta.json'), 'w') as f:
